@@ -3,8 +3,8 @@
    Wrap*.v = models of the logic the momo::stdish wrappers add on top of the nested momo containers.
    Both are run (extracted) against the real momo::stdish AND libstdc++ containers on every check. *)
 From Coq Require Import ZArith List Permutation.
-From C06 Require Import Spec SpecProofs WrapOrdered WrapEq WrapErase History IterLoop GenRefine GenEq GenMisc.
-From C06 Require Gen_USetErase Gen_UMapErase Gen_UMMapErase Gen_SetHint Gen_MSetHint Gen_MapFind Gen_MMapFind Gen_MapAt Gen_SetEqr Gen_UMapCreate Gen_SetCreate.
+From C06 Require Import Spec SpecProofs WrapOrdered WrapEq WrapErase History IterLoop GenRefine GenEq GenMisc GenNode.
+From C06 Require Gen_USetErase Gen_UMapErase Gen_UMMapErase Gen_SetHint Gen_MSetHint Gen_MapFind Gen_MMapFind Gen_MapAt Gen_SetEqr Gen_UMapCreate Gen_SetCreate Gen_SetNodeHint Gen_MSetNodeHint Gen_USetNodeHint Gen_UMapNodeHint Gen_Vector Gen_MapIoa.
 From MomoCommon Require Import GenPrelude.
 Import ListNotations.
 
@@ -355,6 +355,63 @@ Print Assumptions C06_gen_create_steals_iff_equal_allocators.
 Theorem C06_gen_set_create_same_code : Gen_SetCreate.pvCreateSet = Gen_UMapCreate.pvCreateMap.
 Proof. exact gen_set_create_same_code. Qed.
 Print Assumptions C06_gen_set_create_same_code.
+
+(* ===== (2g) insert(hint, node_type&&) as regenerated (fix 9f37105) ===== *)
+
+(* set/multiset::insert(hint, node&&) as translated: position, new content and the state of the CALLER'S node are those the
+   standard mandates - in particular a refused element stays in the node ("nh is unchanged if the insertion fails") *)
+Theorem C06_gen_set_insert_hint_node_spec : forall multi l node h, sorted multi l -> h <= length l ->
+  gen_set_insert_hint_node multi l node h = spec_insert_hint_node multi l h node.
+Proof. exact gen_set_insert_hint_node_spec. Qed.
+Print Assumptions C06_gen_set_insert_hint_node_spec.
+
+Theorem C06_gen_unordered_insert_hint_node_spec : forall l node,
+  gen_uset_insert_hint_node l node = spec_uinsert_hint_node l node.
+Proof. exact gen_uset_insert_hint_node_spec. Qed.
+Print Assumptions C06_gen_unordered_insert_hint_node_spec.
+
+Theorem C06_gen_node_hint_same_code :
+  Gen_MSetNodeHint.insert_hint_node = Gen_SetNodeHint.insert_hint_node /\
+  Gen_UMapNodeHint.insert_hint_node = Gen_USetNodeHint.insert_hint_node.
+Proof. exact (conj mset_node_hint_same_code umap_node_hint_same_code). Qed.
+Print Assumptions C06_gen_node_hint_same_code.
+
+(* the pre-fix path (forwarding to the wrapper's insert(node&&) and keeping only .position) loses a refused element *)
+Theorem C06_node_hint_prefix_refuted : exists l node, interp_unode l node (-11) <> spec_uinsert_hint_node l node.
+Proof. exact node_hint_prefix_refuted. Qed.
+Print Assumptions C06_node_hint_prefix_refuted.
+
+(* ===== (2h) stdish::vector index arithmetic and map::insert_or_assign as regenerated ===== *)
+
+(* vector::at(i): out_of_range exactly when i >= size() *)
+Theorem C06_gen_vector_at_spec : forall size_ arr_ elem_ st i,
+  Gen_Vector.at_const size_ elem_ arr_ st i = if (i <? size_)%Z then Ok (elem_ arr_ i) else Exn.
+Proof. exact gen_vector_at_spec. Qed.
+Print Assumptions C06_gen_vector_at_spec.
+
+(* vector::erase(first,last) calls Array::Remove(first - begin, last - first) and returns the iterator at the same index;
+   erase(where) is erase(where, where + 1); insert(where, v) calls Array::Insert(where - begin, v) (the Array operations: C05/C15) *)
+Theorem C06_gen_vector_erase_range_spec : forall begin_ ev_remove st first last,
+  Gen_Vector.erase_range begin_ v_dist v_next ev_remove st first last = (first, ev_remove st (first - begin_)%Z (last - first)%Z).
+Proof. exact gen_vector_erase_range_spec. Qed.
+Print Assumptions C06_gen_vector_erase_range_spec.
+
+Theorem C06_gen_vector_erase_one_spec : forall begin_ ev_remove st w,
+  Gen_Vector.erase_one begin_ v_dist v_next ev_remove st w = (w, ev_remove st (w - begin_)%Z 1%Z).
+Proof. exact gen_vector_erase_one_spec. Qed.
+Print Assumptions C06_gen_vector_erase_one_spec.
+
+Theorem C06_gen_vector_insert_spec : forall begin_ ev_insert st w v,
+  Gen_Vector.insert_value begin_ v_dist v_next ev_insert st w v = (w, ev_insert st (w - begin_)%Z v).
+Proof. exact gen_vector_insert_spec. Qed.
+Print Assumptions C06_gen_vector_insert_spec.
+
+(* map::insert_or_assign: the mapped value is assigned exactly when the emplace was refused, at the returned position *)
+Theorem C06_gen_map_insert_or_assign_spec : forall (emplace_ : Z -> Z -> Z -> Z * bool) (ev_assign : Z -> Z -> Z -> Z) st h k v,
+  Gen_MapIoa.insert_or_assign emplace_ ev_assign st h k v =
+  (emplace_ h k v, if snd (emplace_ h k v) then st else ev_assign st (fst (emplace_ h k v)) v).
+Proof. exact gen_map_insert_or_assign_spec. Qed.
+Print Assumptions C06_gen_map_insert_or_assign_spec.
 
 (* ===== (3) non-vacuity: the pre-fix shapes of the three repaired functions violate the same statements ===== *)
 Theorem C06_unordered_erase_range_prefix_refuted : exists l first last ps,
